@@ -8,6 +8,7 @@
   names deleted) is covered by the end-to-end runs.
 -/
 import Frrs.Proofs.Stanza
+import Frrs.Proofs.Migrate
 import Frrs.Oracle
 import Frrs.Proofs.Bytes
 import Frrs.Proofs.Codec
@@ -134,5 +135,22 @@ theorem branch_reset_names_the_renamed_branch (o : FOpts) (s : FState) (name inp
          .cont ({ s with updatedBranchRefs := bsetInsert name s.updatedBranchRefs,
                          pendingBranchReset := some name }.emit (b!"reset " ++ name ++ [B.lf])) inp) :=
   branch_reset_line o s name inp hn ht
+
+/-! ### before the export: origin's remote-tracking refs become local branches (migrate.rs) -/
+
+/-- **only origin's own refs are migrated**: what is deleted lies under `refs/remotes/origin/` — with the slash; the refs of a
+    remote called `origin-old` or `origin2` are neither deleted nor copied -/
+theorem migration_touches_only_origin (refs : List (Bytes × Bytes)) (r : Bytes) (hr : startsWith r originPrefix = false) :
+    (∀ p ∈ (migratePlan refs).deletes, p.1 ≠ r) ∧ localNameOf r = none := other_remote_untouched refs r hr
+
+/-- **a migrated branch is a faithful copy**: every created local branch is the local name of one of origin's refs, points at
+    the commit that ref pointed at, and overwrites nothing that existed -/
+theorem migration_creates_faithful_copies (refs : List (Bytes × Bytes)) (c : Bytes × Bytes) (h : c ∈ (migratePlan refs).creates) :
+    ∃ p ∈ refs, startsWith p.1 originPrefix = true ∧ localNameOf p.1 = some c.1 ∧ c.2 = p.2 ∧ ∀ q ∈ refs, q.1 ≠ c.1 :=
+  creates_are_copies refs c h
+
+example : (migratePlan [(b!"refs/heads/main", b!"1"), (b!"refs/remotes/origin/HEAD", b!"1"), (b!"refs/remotes/origin/main", b!"1"),
+    (b!"refs/remotes/origin/topic", b!"2"), (b!"refs/remotes/origin-old/legacy", b!"3")]).creates = [(b!"refs/heads/topic", b!"2")] := by
+  decide +kernel
 
 end Frrs.C03
